@@ -65,7 +65,10 @@ static int c05_main(int argc,char **argv){
       while(!eos&&rc==0){
         long todo=total-done,i; int c;
         if(todo>4096)todo=4096;
-        if(todo>0){ float **b=vorbis_analysis_buffer(&vd,todo); for(c=0;c<ch;c++)for(i=0;i<todo;i++){ float v=mk_sample(&P,c,done+i); if(P.sig==5)v=(c==0)?v:0.f; if(P.sig==6)v*=1e-38f; if(P.sig==7)v*=10.f; b[c][i]=v; } vorbis_analysis_wrote(&vd,todo); done+=todo; }
+        if(todo>0){ float **b=vorbis_analysis_buffer(&vd,todo); for(c=0;c<ch;c++)for(i=0;i<todo;i++){ float v=mk_sample(&P,c,done+i); if(P.sig==5)v=(c==0)?v:0.f; if(P.sig==6)v*=1e-38f; if(P.sig==7)v*=10.f;
+          if(P.sig==8||P.sig==9){ /* strongly tonal: a harmonic complex (partials k*300 Hz, amplitudes 1/k), within +-1 or three times that: residue vectors that sit on the grid of the sparse books */
+            int k2; double x=0,t=(double)(done+i)/(double)rate; for(k2=1;k2<=11&&k2*300.0<rate/2.0;k2++)x+=sin(6.283185307179586*(300.0*k2+7.0*c)*t)/k2; v=(float)(x*(P.sig==8?0.3:1.0)); }
+          b[c][i]=v; } vorbis_analysis_wrote(&vd,todo); done+=todo; }
         else vorbis_analysis_wrote(&vd,0);
         while(vorbis_analysis_blockout(&vd,&vb)==1){
           vorbis_analysis(&vb,NULL); vorbis_bitrate_addblock(&vb);
